@@ -320,6 +320,15 @@ func c17Lucky(p *ana.Prog, r *ana.Result) {
 	}
 	// selection order: first sort by rtd under pick < len, reslice [:pick], then sort by off
 	if len(sorts) == 2 {
+		// execution order, not block numbering: the first is the one from which the other is reached
+		reach := func(a, b *ssa.Call) bool {
+			s := &ana.Search{Fn: do, NoFacts: true, Target: func(in ssa.Instruction) bool { return in == ssa.Instruction(b) }}
+			found, _ := s.Run(a)
+			return found
+		}
+		if reach(sorts[1].c, sorts[0].c) && !reach(sorts[0].c, sorts[1].c) {
+			sorts[0], sorts[1] = sorts[1], sorts[0]
+		}
 		if sorts[0].key == "rtd" && sorts[1].key == "off" && sorts[0].c.Block().Dominates(sorts[1].c.Block()) == false || (sorts[0].key == "rtd" && sorts[1].key == "off") {
 			// the [:pick] reslice lies between them
 			resl := false
@@ -557,6 +566,7 @@ func c17NtimedRaw(p *ana.Prog, r *ana.Result) {
 		return s.Common().Args[0] == ssa.Value(do.Params[a]) && s.Common().Args[1] == ssa.Value(do.Params[b])
 	}
 	var raw, lo, hi ssa.Value
+	rawSet := map[ssa.Value]bool{} // every place the same raw expression is written out
 	ana.Instrs(do, func(in ssa.Instruction) {
 		bo, ok := in.(*ssa.BinOp)
 		if !ok || bo.Op != token.QUO {
@@ -572,8 +582,10 @@ func c17NtimedRaw(p *ana.Prog, r *ana.Result) {
 		// params: 0 f, 1 cTxTime, 2 sRxTime, 3 sTxTime, 4 cRxTime
 		if secondsOfSub(sum.X, 1, 2) && secondsOfSub(sum.Y, 4, 3) {
 			raw, lo, hi = bo, sum.X, sum.Y
+			rawSet[bo] = true
 		} else if secondsOfSub(sum.Y, 1, 2) && secondsOfSub(sum.X, 4, 3) {
 			raw, lo, hi = bo, sum.Y, sum.X
+			rawSet[bo] = true
 		}
 	})
 	if raw == nil {
@@ -672,7 +684,7 @@ func c17NtimedRaw(p *ana.Prog, r *ana.Result) {
 	// counter > 3 (i.e. from the fourth sample on) and with the sample outside a learned bound
 	ph, ok := mid.(*ssa.Phi)
 	if !ok {
-		if mid == raw {
+		if rawSet[mid] {
 			r.Ok("C17.ntimed", fname, "non-raw-arms", posOf(p, cs[0]), "mid is always the raw value")
 		} else {
 			r.Violate("C17.ntimed", fname, "non-raw-arms", posOf(p, cs[0]), "UNDECIDED: mid is neither the raw value nor a merge of arms")
@@ -705,7 +717,7 @@ func c17NtimedRaw(p *ana.Prog, r *ana.Result) {
 	}
 	nArms := 0
 	for i, e := range ph.Edges {
-		if e == raw {
+		if rawSet[e] {
 			continue
 		}
 		nArms++
